@@ -163,6 +163,23 @@ def filter_doc(data):
     return buf.getvalue()
 
 
+def doc_shape(data):
+    """The children of the root element: ['ont', event type names, source URIs] | ['event'] | ['foreign']."""
+    from lxml import etree
+    root = etree.fromstring(data)
+    out = []
+    for ch in root:
+        tag = etree.QName(ch).localname if isinstance(ch.tag, str) else None
+        if tag == 'ontology' and etree.QName(ch).namespace == EDXML_NS:
+            out.append(['ont', sorted(e.get('name') for e in ch.iter('{%s}event-type' % EDXML_NS)),
+                        sorted(e.get('uri') for e in ch.iter('{%s}source' % EDXML_NS))])
+        elif tag == 'event' and etree.QName(ch).namespace == EDXML_NS:
+            out.append(['event'])
+        elif tag is not None:
+            out.append(['foreign'])
+    return out
+
+
 def expected_view(op):
     ev = event_spec(op)
     return {'type': ev['type'], 'source': ev['source'], 'props': sorted([k, sorted(set(v))] for k, v in ev['props'] if v),
@@ -177,6 +194,7 @@ class C02(Property):
     required_theorems = (
         'unescapeText_escapeText', 'unescapeAttr_escapeAttr', 'escapeText_no_markup', 'written_stream_parses',
         'written_stream_parses_from_start', 'only_valid_events_written', 'rejected_call_writes_nothing', 'step_agree',
+        'filter_lossless', 'filter_idempotent', 'filter_output_shape', 'filter_replays',
     )
     level_text = ('Lean 4 theorems over (a) the character data model: what lxml writes for element text and attribute values is '
                   'read back unchanged by an XML parser, for every string (markup characters, CR, LF, TAB, any other character); '
@@ -186,10 +204,15 @@ class C02(Property):
                   'the written events are delivered in order, and only gate-accepted events are written. Compared with '
                   'EDXMLWriter / EDXMLPullParser on strings that serializers and parsers like to mangle (raw bytes of the '
                   'written text and attribute, values read back) and on random sessions over the three event representations, '
-                  'pretty-printed or not; the pass-through filter is checked for losslessness and byte idempotence.')
+                  'pretty-printed or not; (c) the pass-through filter as the parser machine feeding the writer machine: what it '
+                  'writes for an accepted document parses to the same ontology and the same events in order, and filtering '
+                  'that output reproduces it (filter_lossless, filter_idempotent); the element structure of the real filter '
+                  'output (accumulated definitions per ontology element, events, no foreign elements) is compared with the '
+                  'model, its byte idempotence with the oracle.')
     level_note = ('Proof is about the model. lxml / libxml2 are modelled (escaping rules, line end and attribute value '
                   'normalisation), not verified; ontology elements are abstracted to the event types and sources they define '
-                  '(their own round trip is C08); the filter is judged by the oracle only.')
+                  '(their own round trip is C08); byte-for-byte idempotence of the filter rests on lxml serialising equal trees '
+                  'equally (checked by the oracle on every session).')
     technique = 'Lean 4 proof (escape/unescape inverses by induction over strings; simulation of writer and parser machines by induction over sessions) + differential correspondence'
     parallel = True
     assumptions = ('object values, attachment ids and values and foreign attribute values are strings of legal XML characters',)
@@ -254,8 +277,10 @@ class C02(Property):
             e2, ev2, ox2, fo2 = parse_doc(f1)
             f2 = filter_doc(f1)
             obs['filter'] = {'lossless': (e2, ev2, ox2) == (err, events, ox), 'idempotent': f1 == f2}
+            obs['filterShape'] = [doc_shape(f1), doc_shape(f2)]
         except Exception as ex:
             obs['filter'] = 'err:' + type(ex).__name__
+            obs['filterShape'] = None
         return obs
 
     # -- model
@@ -283,7 +308,10 @@ class C02(Property):
         by_idx = {op['idx']: op for op in case['script'] if op['k'] == 'event'}
         return {'verdicts': r['verdicts'], 'parseErr': r['parseErr'], 'delivered': [expected_view(by_idx[i]) for i in r['delivered']],
                 'foreign': [it[1] for it in r['out'] if it[0] == 'foreign'], 'ontology': 'undecided',
-                'filter': {'lossless': True, 'idempotent': True}}
+                'filter': {'lossless': True, 'idempotent': True},
+                # the filter machine: every ontology element of its output holds all definitions so far, events follow
+                # in order, foreign elements are not copied
+                'filterShape': [r['filter'], r['filter2']]}
 
     def fill_undecided(self, case, obs, pred):
         if case['kind'] == 'session':
